@@ -232,6 +232,9 @@ def run(ctx):
                     with open(w_, "w") as f:
                         f.write("click 3\n")
                     decoys.append(w_)
+                    # the recogniser and the model know the file too: where the word is the ARGUMENT of pastefile / typefile it is
+                    # that file that is read; where it stands for a command it is the command
+                    files[w_] = (["click", "3"], "click 3\n")
                 if decoys:
                     ctx.count("cases_with_a_file_named_like_a_command")
             try:
